@@ -54,6 +54,14 @@ def knn_case(draw, nmax=10, kinds=("knn", "unsup"), nq=(0, 0), kmax_force=False,
         m = nt if model == "knn" else nt + n_q
         W, wm = draw(gen.weight_matrix(m))
         case["W"], case["wmode"] = W, wm
+        if draw(st.integers(0, 2)) > 0:
+            # node a uses row rows[a] of the library's matrix (W stays in node order)
+            if model == "knn":
+                case["rows"] = list(draw(st.permutations(list(range(nt)))))
+            else:
+                extra = draw(st.integers(0, 3))
+                case["rows"] = list(draw(st.permutations(list(range(m + extra)))))[:m]
+            case["fill"] = draw(st.sampled_from([0.0, 0.25, 7.25, 1e9]))
     else:
         name = draw(st.sampled_from(metrics or KNN_METRICS))
         kind = draw(st.sampled_from(point_kinds or gen.metric_point_kind(name)))
@@ -96,21 +104,27 @@ def run(case, predict=True, record_criterion=True):
         model = libcall(cls, min_k=case["min_k"], max_k=case["max_k"], **kw)
     if case["mode"] == "pre":
         Wm = case["W"]
-        models.set_pre(model, Wm)
+        rows = case.get("rows") or list(range(len(Wm)))
+        nrows = max(rows) + 1
+        P = [[float(case.get("fill", 0.0))] * nrows for _ in range(nrows)]
+        for a in range(len(Wm)):
+            for b in range(len(Wm)):
+                P[rows[a]][rows[b]] = Wm[a][b]
+        models.set_pre(model, P)
         Xtr = models.index_features(nt)
-        I_tr = np.arange(nt)
+        I_tr = np.array(rows[:nt], dtype=int)
         r.D = [row[:nt] for row in Wm[:nt]]
         if case["model"] == "knn":
             Iv, Iq = case["Iv"], case["Iq"]
             Xv = models.index_features(len(Iv))
-            I_v = np.array(Iv, dtype=int)
+            I_v = np.array([rows[i] for i in Iv], dtype=int)
             Xq = models.index_features(nq)
-            I_q = np.array(Iq, dtype=int) if nq else np.zeros(0, dtype=int)
+            I_q = np.array([rows[i] for i in Iq], dtype=int) if nq else np.zeros(0, dtype=int)
             r.DQ = [[Wm[Iq[q]][t] for t in range(nt)] for q in range(nq)]
             r.DV = [[Wm[Iv[v]][t] for t in range(nt)] for v in range(len(Iv))]
         else:
             Xq = models.index_features(nq, nt)
-            I_q = np.arange(nt, nt + nq)
+            I_q = np.array(rows[nt:nt + nq], dtype=int)
             r.DQ = [[Wm[nt + q][t] for t in range(nt)] for q in range(nq)]
             Xv = I_v = None
     else:
@@ -155,7 +169,26 @@ def run(case, predict=True, record_criterion=True):
 
         def wrapped_cut(k):
             v = orig_cut(k)
-            r.criterion.append((int(model.subgraph.best_k), float(v), int(k)))
+            # independent evaluation of the normalised cut from the live sub-graph (arcs = k nearest + plateau arcs of every node,
+            # arc weight 1/d for d > 0, cut = sum over clusters of external / (internal + external))
+            sg = model.subgraph
+            inte, exte = {}, {}
+            for i, nd in enumerate(sg.nodes):
+                ci = int(nd.cluster_label)
+                for j in list(nd.adjacency)[: int(nd.n_plateaus) + k]:
+                    j = int(j)
+                    d = r.D[i][j]
+                    if d > 0.0:
+                        if int(sg.nodes[j].cluster_label) == ci:
+                            inte[ci] = inte.get(ci, 0.0) + 1.0 / d
+                        else:
+                            exte[ci] = exte.get(ci, 0.0) + 1.0 / d
+            ref = 0.0
+            for c_ in set(inte) | set(exte):
+                tot = inte.get(c_, 0.0) + exte.get(c_, 0.0)
+                if tot > 0.0:
+                    ref += exte.get(c_, 0.0) / tot
+            r.criterion.append((int(model.subgraph.best_k), float(v), int(k), ref))
             return v
 
         model._normalized_cut = wrapped_cut
